@@ -302,6 +302,9 @@ class PipeOps(FullOps):
         if isinstance(v, ListV) and v.items is None:
             src = "+".join(str(a) for a in order_src(v.order)) or "?"
             uniq = v.order is not None and ("unordered" in v.order[1] or "unique" in v.order[1])
+            if v.order is not None and "filtered" in v.order[1]:
+                # a selection by a condition on the elements: its size is its own unknown (it may be empty although the collection is not)
+                return TV(kind="pyint", poly=Poly.sym(f"len~[{src}]"), origin=frozenset(self.atoms_of(v)), note="len")
             return TV(kind="pyint", poly=Poly.sym(f"len[{src}]" if uniq else f"len*[{src}]"), origin=frozenset(self.atoms_of(v)), note="len")
         if isinstance(v, (DictV, SetV)) or (isinstance(v, ObjV) and v.payload is not None):
             d = v.payload if isinstance(v, ObjV) else v
@@ -602,6 +605,9 @@ class PipeOps(FullOps):
             if desc == ["-1"]:
                 keep = ()
             return t.but(layout=keep, axes=axes if t.axes[0] == "R" and desc and desc[0] == "rows" else ((Q,) if desc == ["-1"] else t.axes))
+        if name == "repeat" and len(args) == 2 and self.const_int(args[1]) == 1 and len(t.axes) == 1:
+            # v.repeat(n, 1): n rows, each a copy of the vector — the layout of the vector becomes the layout of the columns
+            return t.but(axes=("K", t.axes[0]), layout=tuple((l[0] + 1, l[1], l[2]) for l in t.layout), alias=False)
         if name == "as_strided" and len(args) >= 2:
             # as_strided(shape, strides): a window on the storage. With strides taken from another tensor (`key.stride()`) it is a row-major
             # un-flattening only if that tensor is contiguous; literal contiguous strides are not recognised here (reported as undecided by `unk`)
